@@ -173,7 +173,8 @@ def build(desc):
              "time": int, "enc": None | ("zc", pw) | ("aes", version, strength, pw), "crc": override, "lextra_tail": bytes,
              "lname": bytes (local name override), "flags_extra": int,
              "lz64_last": bool (position of the LOCAL ZIP64 record; default: as z64_last),
-             "aes_first": bool (the AE-x record precedes the entry's other extra records; default: it follows them)}"""
+             "aes_first": bool (the AE-x record precedes the entry's other extra records; default: it follows them),
+             "cx_layout"/"sent"/"cx_tail"/"cx_cut": the central extra field record by record (see the code)}"""
     out = bytearray(desc.get("prefix", b""))
     base = len(out)           # offsets are relative to the start of the archive proper
     ents = desc["entries"]
@@ -261,6 +262,32 @@ def build(desc):
         if zf:
             cextra = cextra + [(1, zf)] if e.get("z64_last") else [(1, zf)] + cextra
         cx = tlv(cextra)
+        if "cx_layout" in e:
+            # the central extra field laid out record by record (spec/ExtraWalk.tla): items ("z64", delta) - one value per field listed
+            # in e["sent"] (whose 32-bit fields then hold the marker), delta = -1 / +1 drops the last value / appends a stray one;
+            # ("aes", length) - the entry's AE-x record (length 7) or a malformed one; (id, body) - any other record;
+            # e["cx_tail"]: bytes of an incomplete header behind the last record; e["cx_cut"]: the field ends one byte early
+            sent = e.get("sent", ())
+            us32 = S32 if "us" in sent else r["usize"]
+            cs32 = S32 if "cs" in sent else r["csize"]
+            off32 = S32 if "off" in sent else r["off"]
+            cx = b""
+            for item in e["cx_layout"]:
+                if item[0] == "z64":
+                    vals = [v_ for f_, v_ in (("us", r["usize"]), ("cs", r["csize"]), ("off", r["off"])) if f_ in sent]
+                    if item[1] < 0:
+                        vals = vals[:item[1]]
+                    elif item[1] > 0:
+                        vals = vals + [0x1122334455667788] * item[1]
+                    cx += tlv([(1, b"".join(struct.pack("<Q", v_) for v_ in vals))])
+                elif item[0] == "aes":
+                    body = r["aes_extra"][0][1] if r["aes_extra"] else struct.pack("<H2sBH", 2, b"AE", 3, e.get("method", 0))
+                    cx += tlv([(0x9901, body[:item[1]])])
+                else:
+                    cx += tlv([item])
+            cx += e.get("cx_tail", b"")
+            if e.get("cx_cut"):
+                cx = cx[:-1]
         fc = e.get("fcomment", b"")
         vm = (e.get("system", 3) << 8) | e.get("vmade", 30)
         chs[i] = len(out)
